@@ -5,4 +5,7 @@ Keys3 == {1, 2, 3}
 Next == (\E S \in SUBSET Keys3 : Model(S)) \/ Finish
 Init == \E F \in SUBSET (SUBSET Keys3) : EInit(F)
 Spec == Init /\ [][Next]_evars
+(* the enumeration terminates for every family and every order of models *)
+FairSpec == Spec /\ WF_evars(Next)
+Terminates == <>(phase = "done")
 =============================================================================
